@@ -1,6 +1,6 @@
 /* helper child for C20: echoes what it was given.
    child echoargs ...          -> stdout: "ARGC n\n" + per arg "ARG <len>:<bytes>\n" + "ENV VF_A=<v>|<unset>\n" "ENV VF_B=..." "ENV HOME=<set|unset>\n"
-   child io <out> <err> <exit> <readstdin> [<delay ms>] -> reads stdin to EOF if readstdin=1, stdout: "IN <len> <sum>\n" + <out> pattern bytes, stderr: <err> pattern bytes, exit code */
+   child io <out> <err> <exit> <readstdin> [<delay ms> [o|e|x]] -> reads stdin to EOF if readstdin=1, stdout: "IN <len> <sum>\n" + <out> pattern bytes, stderr: <err> pattern bytes, exit code */
 #include <stdio.h>
 #include <stdlib.h>
 #include <string.h>
@@ -18,8 +18,10 @@ int main(int argc, char** argv)
       while((n = read(0, buf, sizeof(buf))) > 0) { for(ssize_t i = 0; i < n; ++i) sum = sum * 31 + buf[i]; len += (unsigned long)n; }
     }
     if(argc >= 7) usleep((useconds_t)atol(argv[6]) * 1000);   /* optional: write only after <delay> ms */
+    char mode = argc >= 8 ? argv[7][0] : 'o';   /* o: header to stdout; e: header to stderr; x: no header, exit code = (sum + len) % 251 */
     char head[64]; int hl = snprintf(head, sizeof(head), "IN %lu %lu\n", len, sum);
-    if(write(1, head, hl) != hl) return 99;
+    if(mode == 'x') return (int)((sum + len) % 251);
+    if(write(mode == 'e' ? 2 : 1, head, hl) != hl) return 99;
     for(long i = 0; i < out;) { unsigned char buf[4096]; long k = out - i < 4096 ? out - i : 4096; for(long j = 0; j < k; ++j) buf[j] = (unsigned char)('a' + (i + j) % 23); if(write(1, buf, k) != k) return 98; i += k; }
     for(long i = 0; i < err;) { unsigned char buf[4096]; long k = err - i < 4096 ? err - i : 4096; for(long j = 0; j < k; ++j) buf[j] = (unsigned char)('A' + (i + j) % 19); if(write(2, buf, k) != k) return 97; i += k; }
     return code;
